@@ -405,7 +405,7 @@ theorem wakeLoop_q {swf : State → Nat → Nat → Bool → State} (hn : N3 swf
 /-- the notify part of `Unregister(name)` when it cannot run script code -/
 theorem unregNotify_q {swf : State → Nat → Nat → Bool → State} {sn : State → Nat → State}
     (hn3 : N3 swf) (hn1 : N1 sn) (hswf : Q3 swf) (hsn : Q1 sn) (D : List Nat) {s : State} (h : NInv s)
-    (src name : Nat) (hq : name = 0 ∨ 100 ≤ src) : Q D s (unregNotify swf sn s src name) := by
+    (src name : Nat) (hq : name = 0 ∨ QSrc src name) : Q D s (unregNotify swf sn s src name) := by
   unfold unregNotify
   split
   · exact Q.refl D s
@@ -416,9 +416,11 @@ theorem unregNotify_q {swf : State → Nat → Nat → Bool → State} {sn : Sta
       have hname : name = 0 := by
         rcases hq with hq | hq
         · exact hq
-        · apply h.n1 src name hq
-          rw [Tbl.find_eq_getD_of_some hfind]
-          exact h.wfN.find_ne_nil hfind
+        · exfalso
+          have hk := h.n1 src name hq.1 (by rw [Tbl.find_eq_getD_of_some hfind]; exact h.wfN.find_ne_nil hfind)
+          rcases hq.2 with e | e
+          · exact hk.1 e
+          · exact hk.2 e
       subst hname
       simp only [unregisterTargets_eq_purge]
       have h1 : NInv ({ ({ s with waitFor := (Tbl.purge s.alive s.waitFor src 0 list []).1 } : State) with
@@ -470,7 +472,7 @@ structure QAll (fuel : Nat) : Prop where
   stp : Q1 (stop fuel)
   cwa : Q1 (cancelWaitingAll fuel)
   swf : Q3 (stoppedWaitFor fuel)
-  ur : ∀ D s src name, NInv s → (name = 0 ∨ 100 ≤ src) → Q D s (unregister fuel s src name)
+  ur : ∀ D s src name, NInv s → (name = 0 ∨ QSrc src name) → Q D s (unregister fuel s src name)
   ua : Q1 (unregisterAll fuel)
 
 theorem Q.fuel (D : List Nat) (s : State) : Q D s { s with outOfFuel := true } :=
@@ -510,9 +512,9 @@ theorem qAll_succ {fuel : Nat} (ih : QAll fuel) : QAll (fuel + 1) := by
         have h3 := cancelEvents_ninv h2 t
         have q3 := q2.trans (cancelEvents_q (t :: D) _ t)
         have h4 := n.ur _ t nameDelete h3
-        have q4 := q3.trans (ih.ur (t :: D) _ t nameDelete h3 (Or.inr ht))
+        have q4 := q3.trans (ih.ur (t :: D) _ t nameDelete h3 (Or.inr ⟨ht, Or.inl rfl⟩))
         have h5 := n.ur _ t nameRemove h4
-        have q5 := q4.trans (ih.ur (t :: D) _ t nameRemove h4 (Or.inr ht))
+        have q5 := q4.trans (ih.ur (t :: D) _ t nameRemove h4 (Or.inr ⟨ht, Or.inr rfl⟩))
         have h6 := n.ua _ t h5
         have q6 := q5.trans (ih.ua (t :: D) _ t h5)
         have q7 := q6.trans (ih.cwa (t :: D) _ t h6)
